@@ -172,6 +172,8 @@ def gen_box(rng, triclinic):
 
 
 def gen_title(rng):
+    if rng.random() < 0.06:
+        return ""           # an EMPTY title line is a title (seed C05-13: `self._comment or DEFAULT`)
     words = ["mapped", "system", "t=", "0.000", "ionic", "liquid", "GROMACS", "rocks", "step", "42", "#", "CG;"]
     t = " ".join(rng.choice(words) for _ in range(rng.randint(1, 6)))
     if rng.random() < 0.12:
